@@ -88,6 +88,32 @@ check("C08", "model_checking",
       "bounded-exhaustive input enumeration with differential oracles between encoders/decoders/routes",
       "DESIGN.md §5 C08", "mc")
 
+check("C04", "model_checking",
+      "Two engines. mc: for AsyncClient and WebSocketClient over an in-memory stream on a paused single-threaded runtime, n <= 5 (thorough 7) concurrent calls x every permutation of the n replies x one extra frame (unknown id, duplicate of reply j, notify reusing in-flight id j) at every position x delivery one-by-one or in one burst; batch_json under every reply order; replies injected while the request's own write is blocked after 48+k bytes. lm: the real blocking client.rs under loom (mock socket, loom channel, 2-3 caller threads + reader + scripted server): in-order, reversed, unknown+duplicate, early-reply and multi-call scripts at preemption bound 2 (3 in thorough); every schedule must give each call the response addressed to its own request id, distinct ids, no hang.",
+      "tokio multi-threaded scheduling below transport granularity is not explored for the two tokio clients (single-threaded runtime); loom explores SC interleavings within the preemption bound; AsyncClient has no notification API (a notify reusing an id may be consumed by that call).",
+      "exhaustive enumeration of peer scripts against the running clients (mc) + loom stateless model checking of the blocking client",
+      "DESIGN.md §5 C04", "mc+lm")
+check("C05", "fault_enumeration",
+      "Two engines. mc: forced-stall scripts with exact write credit on in-memory streams - concurrent calls + notify on AsyncClient / WebSocketClient with payloads straddling the 8 KiB writer buffer and the peer accepting exactly k bytes; a large call abandoned after exactly k accepted bytes followed by another call; AsyncServer with a write timeout whose response stalls past the deadline, and pipelined responses stalled then released; WebSocket server with concurrent off-reader responses and pushed notifies against a stalled peer; blocking Server and blocking Client over loopback TCP with 24 MiB frames and a 300 ms write timeout. lm: blocking client under loom with 7..24-byte write quotas and a 1-byte pipe. Everything the peer receives must parse into whole frames and nothing may follow an interrupted write.",
+      "TCP rows depend on the kernel filling its socket buffers with 24 MiB (a counter reports that it did); 2-4 writers under forced stalls, not 32 free-running ones.",
+      "exhaustive enumeration of stall offsets / interruption points against running endpoints (mc) + loom model checking of the blocking client's writer",
+      "DESIGN.md §5 C05", "mc+lm")
+check("C06", "fault_enumeration",
+      "Two engines. mc: for AsyncClient and WebSocketClient with a paused clock - every fault (peer closes before/after the requests, reset, reply cut after 1/47/48/50/len-1 bytes, five kinds of malformed frame, answer-one-then-close) x 0..3 (thorough 0..16) calls in flight x with/without per-call timeouts; a response arriving 4990/50/2 ms before a 5 s timeout and after it, with and without a sibling call; staggered timeouts; cancellation before start, while awaiting the response and while queued on the writer lock; a call still pending after a virtual hour is a hang; pending map must be empty; the subscriber must see end-of-stream. lm: blocking client under loom - close before/after read, partial response, malformed header, answer-then-close, timeout vs late reply, reply racing the timeout (virtual clock): no schedule may leave a thread blocked.",
+      "Promptness is decided as 'returns without waiting for something that never comes', not as wall-clock latency.",
+      "exhaustive fault-script enumeration against the running clients (mc) + loom model checking of the blocking client",
+      "DESIGN.md §5 C06", "mc+lm")
+check("C09", "model_checking",
+      "Real SVS handlers (/_svs/open|next|cancel, real producer thread and bounded channel) driven session by session: chunk sizes 1..8 (+16, 4096, 1 MiB), every payload length 0..3c+1, channel depths 0,1,2,4,8, both compressions, all five producer kinds, every composition of write sizes for n <= 10, failure and panic injection at every byte position, every cancel point, unknown ids, and gate disciplines forcing producer-first / consumer-first at each rendezvous; plus the blocking, async and WebSocket pullers over real transports on a boundary subset.",
+      "zstd output is judged by decompression; large chunk sizes use boundary lengths only.",
+      "bounded-exhaustive enumeration of sessions/configurations against the real handlers with a byte-exact oracle",
+      "DESIGN.md §5 C09", "mc")
+check("C14", "model_checking",
+      "Two engines. mc: every operation x every pointer of an 869-pointer universe (all <= 3-token pointers over 9 tokens incl. escapes/empty/indices, malformed forms, root forms) from three start trees; all histories to depth 3 (thorough 5) + BFS to depth 6 (10) in a small scope; each request repeated through Router::with_registry under three prefixes and seven body formats on twin registries; oracle = serde_json document + callable set with an independent RFC 6901 tokenizer. lm: real registry.rs under loom (unbounded DPOR): all pairs (and triples) of 10 request scripts on colliding pointers must be serialisable.",
+      "The JSON returned by reading a callable's own pointer, error texts and codes of well-formed but impossible requests are unspecified and not compared; \"\" and \"/\" both address the root as in the implementation.",
+      "bounded-exhaustive history/input enumeration against a reference model (mc) + loom linearizability checking",
+      "DESIGN.md §5 C14", "mc+lm")
+
 ALL = [f"C{i:02d}" for i in range(1, 20)]
 for pid in ALL:
     if pid not in CHECKS:
